@@ -67,6 +67,47 @@ def run_batch(ck: Check, n_hist: int, length: int, kinds=None, tag=''):
     return out
 
 
+def run_exhaustive(ck: Check, maxlen: int):
+    """every sequence of menu calls up to `maxlen` on 2 and 3 qubits"""
+    import itertools as it
+    jobs = []
+    total = 0
+    for nq in (2, 3):
+        m = len(circ_sim.menu(nq))
+        seqs = []
+        for L in range(1, maxlen + 1):
+            if nq == 3 and L == maxlen and maxlen >= 3:
+                # 3-qubit menu is larger: full enumeration one step shorter
+                continue
+            seqs += list(it.product(range(m), repeat=L))
+        total += len(seqs)
+        chunk = max(1, len(seqs) // 48)
+        jobs += [(nq, seqs[i:i + chunk]) for i in range(0, len(seqs), chunk)]
+    with mp.Pool(min(16, len(jobs))) as pool:
+        res = pool.map(circ_sim.menu_worker, jobs)
+    hists = [h for r in res for h in r]
+    all_lines = []
+    for key, lines, impl, calls, internal, ubad in hists:
+        if lines is None:
+            raise RuntimeError(f'harness failure in menu history {key}: '
+                               f'{internal}')
+        all_lines += lines
+    outs = ck.driver('circ', all_lines)
+    pos = 0
+    out = []
+    for key, lines, impl, calls, internal, ubad in hists:
+        out.append(dict(i=key, seed=str(key), lines=lines, impl=impl,
+                        model=outs[pos:pos + len(lines)], calls=calls,
+                        internal=internal, ubad=ubad))
+        pos += len(lines)
+    ck.coverage['exhaustive'] = True
+    ck.coverage['exhaustive_space'] = (
+        f'all call sequences of length <= {maxlen} over the 2-qubit menu '
+        f'({len(circ_sim.menu(2))} calls) and <= {max(1, maxlen - 1) if maxlen >= 3 else maxlen} over the 3-qubit '
+        f'menu ({len(circ_sim.menu(3))} calls): {total} histories')
+    return out
+
+
 def classify(ck: Check, hists, which: str):
     """which in {'C04','C05'}: report the first disagreement of each history
     that belongs to this property."""
@@ -270,6 +311,7 @@ def run(ck: Check, which: str):
     n = 40000 if thorough else 2000
     hists = run_batch(ck, n, 28)
     classify(ck, hists, which)
+    classify(ck, run_exhaustive(ck, 4 if thorough else 3), which)
     # a few sample histories
     for h in hists[:3]:
         ck.sample({'calls': h['calls'][:12],
